@@ -77,12 +77,17 @@ func exactProduct(c uint64, f float64) *big.Int {
 
 func analyseFees(m *Model, bc *ledger.BlockCtx, v *txnView) *feeAnalysis {
 	a := &feeAnalysis{Fees: new(big.Int), M: new(big.Int), S: new(big.Int)}
-	ch, ok := v.Recs[minersc.GlobalNodeKey]
-	if !ok || ch.Old == nil {
-		return nil
+	// the configuration before the payment: the old side of the diff, or, when the payment
+	// left the global node byte-identical (a second payment in the same round), the state
+	raw := rawAt(bc.State, minersc.GlobalNodeKey)
+	if ch, ok := v.Recs[minersc.GlobalNodeKey]; ok {
+		raw = ch.Old
 	}
 	a.GN = &minersc.GlobalNode{}
-	if _, err := a.GN.UnmarshalMsg(ch.Old); err != nil {
+	if raw == nil {
+		return nil
+	}
+	if _, err := a.GN.UnmarshalMsg(raw); err != nil {
 		return nil
 	}
 	// the payment itself is the last transaction of the block so far
@@ -199,7 +204,7 @@ func (o *OracleC22) AfterTxn(w *ledger.World, bc *ledger.BlockCtx, out *ledger.O
 	}
 	a := analyseFees(o.M, bc, v)
 	if a == nil {
-		o.viol(w, "config", "payfees/global-node-not-updated", "a successful fee payment did not rewrite the global node")
+		o.viol(w, "config", "payfees/global-node-unreadable", "the miner contract's global node cannot be read")
 		return
 	}
 	for _, b := range a.Bad {
@@ -514,7 +519,10 @@ func driveRewards(m *Model, r *ledger.Runner, st sim.Step, judge func(w *ledger.
 				amt = uint64(rng.Int63n(1e11))
 			}
 			seed := int64(rng.Uint64() >> 1)
-			n := []int{0, 1, 2, 3, np, np + 1, 10}[rng.Intn(7)]
+			n := []int{1, 1, 2, 3, np, np + 1, 10}[rng.Intn(7)]
+			if n == 0 {
+				n = 1 // N = 0 is not driven (the statement speaks of a subset of N delegates)
+			}
 			useN := rng.Intn(2) == 0
 			clone := cloneSP(sp)
 			sctx := w.StateContextOn(r.BC)
